@@ -26,6 +26,7 @@ type Profile struct {
 	RefreshDl   []int64 // deadlines of Refresh callers (ms), nil = none
 	ParkPct     int     // percentage of lookups held between the known-check and the flight
 	StructPct   int     // percentage of constructions that declare some names through a tagged struct
+	DeadRestartPct int  // percentage of restarts that happen with the service unreachable
 	Readers     int // concurrent reader goroutines (bursts of handle calls racing the driver's steps)
 }
 
@@ -212,7 +213,26 @@ func RandomHistory(e *Env, r *rand.Rand, p Profile) {
 				if p.Auto && !e.closed {
 					e.Apply(Step{Do: "close"})
 				}
+				dead := r.Intn(100) < p.DeadRestartPct
+				if dead { // the service is unreachable: the successor has only the cache
+					for _, n := range p.Names {
+						e.Apply(Step{Do: "svcmode", Name: n, Mode: "fail"})
+					}
+				}
 				e.Apply(Step{Do: "restart", Declared: decl, AllowLookup: first.AllowLookup, Expiry: first.Expiry, Auto: p.Auto})
+				if dead && e.theStore() != nil {
+					// it serves exactly what the cache held
+					for _, n := range p.Names {
+						e.Apply(Step{Do: "handle", Name: n})
+						e.Apply(Step{Do: "read", Name: n})
+					}
+				}
+				if dead {
+					// if a declared secret was missing from the cache, construction is retrying: let the service come back
+					for _, n := range p.Names {
+						e.Apply(Step{Do: "svcmode", Name: n, Mode: "ok"})
+					}
+				}
 			}
 		case "cachefault":
 			e.Apply(Step{Do: "cachefault", WFail: r.Intn(2) == 0})
